@@ -412,6 +412,41 @@ func genC07(c *Ctx) {
 		}
 	}
 
+	// ---- optimizeConjunctionUnadorned.Finish: two 1-hit constituents for DIFFERENT documents make the segment empty
+	cf := c07Func(c, ip, "optimizeConjunctionUnadorned.Finish")
+	oneHitGuard := false
+	var oneHitGuardSrc []string
+	ast.Inspect(cf.Body, func(n ast.Node) bool {
+		is, ok := n.(*ast.IfStmt)
+		if !ok || !c07Mentions(is.Cond, "docNum1HitLastOk") || !c07Mentions(is.Cond, "docNum1Hit") {
+			return true
+		}
+		conj := c07Split(ip, is.Cond, token.LAND)
+		hasNe := false
+		for _, g := range conj {
+			g2 := strings.ReplaceAll(g, " ", "")
+			if g2 == "docNum1HitLast!=docNum1Hit" || g2 == "docNum1Hit!=docNum1HitLast" {
+				hasNe = true
+			}
+		}
+		// the body must give the segment the empty iterator and go on with the next segment
+		empties, continues := false, false
+		ast.Inspect(is.Body, func(m ast.Node) bool {
+			if id, ok := m.(*ast.Ident); ok && id.Name == "anEmptyPostingsIterator" {
+				empties = true
+			}
+			if br, ok := m.(*ast.BranchStmt); ok && br.Tok == token.CONTINUE {
+				continues = true
+			}
+			return true
+		})
+		if hasNe && empties && continues {
+			oneHitGuard = true
+			oneHitGuardSrc = conj
+		}
+		return true
+	})
+
 	var b strings.Builder
 	b.WriteString("/-! GENERATED by /verif/go/extract (c07.go) from search/searcher/{search_disjunction,search_conjunction,\nsearch_phrase,search_filter}.go and index/{postings,snapshot}.go of the repository under check.\nDo not edit: `./check C07` rewrites this file from the working tree on every run. -/\nnamespace BlugeGen.C07\n\n")
 	fmt.Fprintf(&b, "/-- `var DisjunctionHeapTakeover` (search_disjunction.go) -/\ndef disjunctionHeapTakeover : Nat := %d\n\n", takeover)
@@ -429,9 +464,10 @@ func genC07(c *Ctx) {
 	fmt.Fprintf(&b, "/-- … the restart closes the RECEIVER (the iterator that stays in use) — the defect repaired by a8a2358 -/\ndef postingsRestartClosesReceiver : Bool := %v\n\n", closedRecv)
 	fmt.Fprintf(&b, "/-- segmentIndexAndLocalDocNumFromGlobal: the predicate handed to `sort.Search(len(i.offsets), …)`, and is 1 subtracted -/\ndef segmentSearchPred : String := %s\ndef segmentSearchMinusOne : Bool := %v\n\n", LeanStr(searchPred), minusOne)
 	fmt.Fprintf(&b, "/-- literalPrefix (search_regexp.go): the conjuncts under which the left-most literal of the parsed pattern is\nreturned as the prefix that confines the dictionary walk, and whether `s.Flags&syntax.FoldCase == 0` is among them\n(a case-folded literal stands for all case variants; regexp/syntax stores its UPPER-case spelling) -/\ndef literalPrefixGuard : List String := %s\ndef literalPrefixOnlyWithoutFoldCase : Bool := %v\n\n", c07LeanList(lpGuard), noFold)
+	fmt.Fprintf(&b, "/-- optimizeConjunctionUnadorned.Finish (index/optimize.go): a 1-hit constituent whose document differs from the\n1-hit document seen before makes the segment's result empty (`if <these> { iterators[i] = anEmptyPostingsIterator; continue OUTER }`) -/\ndef conjUnadorned1HitDisagreementGuard : Bool := %v\ndef conjUnadorned1HitDisagreementCond : List String := %s\n\n", oneHitGuard, c07LeanList(oneHitGuardSrc))
 	b.WriteString("end BlugeGen.C07\n")
 	c.WriteLean("C07", b.String())
-	c.Summary["facts"] = 16
+	c.Summary["facts"] = 17
 	c.Summary["DisjunctionHeapTakeover"] = takeover
 	c.Summary["DisjunctionMaxClauseCount"] = maxClauses
 }
